@@ -2,7 +2,7 @@
 import mir as M
 from domain import fin, adt_variants, TOP, BOOL
 from interp import Imprecision
-from rules_protocol import (short, effects, set_fields, event_kinds, sig_writes, is_role, role_str, elem_is_key, connected,
+from rules_protocol import (deferred_clear, short, effects, set_fields, event_kinds, sig_writes, is_role, role_str, elem_is_key, connected,
                             phase, tkey, EVENTS, pairing)
 
 REGISTRY = {}
@@ -666,6 +666,32 @@ def check_C07(A, R, tier):
         runs = A.startup_runs() if name == "event_startup" else ([A.joined_run(b)] if name == "abort_remaining" else list(A.event_runs(name).values()))
         bad = [v for r_ in runs for v in r_.by_kind("push_signal") if K["upfail"] in v["kinds"]]
         R.ob("R7.4", "%s | does not signal upstream failure itself" % name, not bad)
+    # R7.7: a job that has not been started and is not yet failed-like, when told that a direct upstream failed, ends upstream-failed
+    # (it must not stay 'skipped' or pending); exempt: finished states of the cleanup kind (Ephemerals nobody needs stay skipped)
+    cleanup_kinds = set(A.kind_of(x) for x in C["CleanupOffered"])
+    n = 0
+    for s in sorted(A.reach()):
+        if s in C["FailedLike"] or s in C["Running"] or not reachable_without_running(A, s):
+            continue
+        if s in C["Finished"] and A.kind_of(s) in cleanup_kinds:
+            continue
+        run = H[(K["upfail"], s)]
+        okp = iteration_completes(A, run)
+        ws = [w for w in run.by_kind("write_state") if is_role(w["key"], "sigtarget") and s in w["frm"]]
+        n += 1
+        ok = (not okp) or (bool(ws) and all(set(w["to"]) <= UF for w in ws))
+        why = "the handler returns normally and leaves the job in %s: it is reported as %s although a direct upstream failed" % (
+            A.sname(s), "skipped/succeeded" if s in C["Finished"] else "pending")
+        if ok and okp and ws:
+            res = [forall_loop_taken(A, run, w) for w in ws]
+            if not any(r_[0] for r_ in res):
+                ok, why = False, "the re-classification is not on every path of the handler: " + res[0][1]
+        R.ob("R7.7", "upstream-failure handler | %s | a not-yet-started job is re-classified upstream-failed" % A.sname(s), ok, detail=why,
+             skey="upstream-failure handler | own job %s must end upstream-failed" % describe_state(A, s))
+    R.floor("R7.7", "not-yet-started, not failed-like states", n, 5)
+    # R7.8: an upstream-failed sibling does not hide a downstream that needs the Ephemeral (necessary for 'jobs without a failed
+    # ancestor behave as without failures')
+    rule_undecided_downstream(A, R, None, "R7.8")
     # R7.6: a stale consider signal for a finished job is a no-op
     for s in sorted(C["Finished"]):
         run = H[(K["consider"], s)]
@@ -680,6 +706,27 @@ def check_C07(A, R, tier):
                      "from never-offered states, and are final; the signal is sent only to direct downstreams of a job just marked "
                      "failed.  Not decided: that jobs without failed ancestors behave exactly as in the failure-free evaluation.")
     R.assume("the twin-run clause (\"executed or skipped exactly as without failures\") is not decided statically")
+
+
+def iteration_completes(A, run):
+    """does the partition run of the signal processor finish handling its signal normally (reach the loop head again on taken
+    edges without passing an error exit)?"""
+    sp = A.signal_processor()
+    heads = [h for h in set(h for (_, h) in sp.back_edges())
+             if sp.term(h)["k"] == "call" and "Drain" in (M.callee_name(sp.term(h)) or "") and (M.callee_name(sp.term(h)) or "").endswith("::next")]
+    if len(heads) != 1:
+        raise Imprecision("cannot identify the signal loop")
+    h = heads[0]
+    loop = sp.natural_loop(h)
+    sw = sp.term(h)["t"]
+    fid = run._index().get((sp.name, ()))
+    if fid is None:
+        raise Imprecision("signal processor frame not found")
+    errs = error_exit_blocks(A, sp) | residual_blocks(sp)
+    for s0 in [s_ for s_ in sp.succs(sw) if s_ in loop]:
+        if h in run.taken_reachable(fid, s0, errs):
+            return True
+    return False
 
 
 def describe_state(A, s):
@@ -1017,14 +1064,20 @@ def check_C13(A, R, tier):
         if bad:
             R.ob("R13.2", "%s handler | does not emit the acknowledgement signal" % A.kname(k), False, site=A.site(bad[0]))
     # set membership (stays offered until acknowledged)
-    pairing(A, R, "R13.2s", CO, None, "cleanup", exclude=("self", ready_f))
+    pairing(A, R, "R13.2s", CO, None, "cleanup", exclude=("self", ready_f), field=cleanup_f)
     # R13.3 not forgotten (necessary) -----------------------------------------------------------------
     not_forgotten(A, R, "R13.3")
-    for s in sorted(C["Finished"]):
+    for s in sorted(okdown):     # a failed downstream never leads to an offer: nothing is demanded for those
         run = H[(K["done"], s)]
         nb = [v for v in run.by_kind("neighbors") if v["dir"] == "Incoming" and v["key"][0] is not None and is_role(v["key"], "sigtarget")]
-        R.ob("R13.3", "done handler | %s | considers the upstreams of the finished job for cleanup" % A.sname(s), len(nb) >= 1,
-             detail="the handler does not look at the incoming neighbours of the finished job")
+        ok, why = len(nb) >= 1, "the handler does not look at the incoming neighbours of the finished job"
+        if ok:
+            # ... on every path of the handler (edges the partition run took): no condition on the finished job decides it
+            res = [forall_loop_taken(A, run, v) for v in nb]
+            if not any(r_[0] for r_ in res):
+                ok, why = False, "the handler can end without looking at the upstreams of the finished job: " + res[0][1]
+        R.ob("R13.3", "done handler | %s | considers the upstreams of the finished job for cleanup" % A.sname(s), ok, detail=why,
+             site=A.site(nb[0]) if nb else "")
     # the outer loop over the upstreams has no early exit
     ws = []
     for s_ in sorted(C["Finished"]):
@@ -1216,7 +1269,7 @@ def check_C10(A, R, tier):
                 continue
             n += 1
             ok = any(v["op"] == "remove" and v["target"] == ("self", ready_f) and elem_is_key(v["elem"], w["key"]) and connected(A, w, v)
-                     for v in run.by_kind("set_op"))
+                     for v in run.by_kind("set_op")) or deferred_clear(A, ready_f)
             R.ob("R10.2", "abort handler | %s | the aborted job is taken out of the ready set" % A.sname(s), ok,
                  detail="an offered job is aborted but stays in the set reported by query_ready_to_run()", site=A.site(w))
     R.floor("R10.2", "offered states handled by the abort handler", n, 3)
@@ -1361,7 +1414,7 @@ def check_C05(A, R, tier):
         R.ob("R5.4", "%s | the transfer is on every regular path from the end of the batch to the return" % short(sp.name), okp,
              detail="a path returns without moving the new signals into the queue (and without an emptiness test)")
     # R5.5 (necessary for progress): the requirement summary never passes over an undecided downstream
-    rule_undecided_downstream(A, R, "R5.5")
+    rule_undecided_downstream(A, R, "R5.5", "R5.6")
     R.explanation = ("Decided: each job is started at most once (phase typestate over the complete transition relation), and a finished "
                      "evaluation has nothing ready or running (ready-set pairing, disjoint classes, running report is a scan).  "
                      "Necessary conditions for progress: every finishing write announces the job, the announcement reconsiders every "
@@ -1700,7 +1753,22 @@ def requirement_functions(A):
     return out
 
 
-def rule_undecided_downstream(A, R, rule):
+def flag_answers(av):
+    """concrete values of a finite answer `X` / `Result<X, _>` (Ok payload), or None if unknown"""
+    if av is None:
+        return None
+    if av[0] == "fin":
+        return set(av[2])
+    if av[0] == "adt" and av[1] == "std::result::Result":
+        vs = adt_variants(av)
+        if 0 not in vs:
+            return set()
+        p = vs[0][0]
+        return set(p[2]) if p[0] == "fin" else None
+    return None
+
+
+def rule_undecided_downstream(A, R, rule, rule_early=None):
     from interp import Interp, Config
     from domain import av_set
     C = A.classes()
@@ -1757,7 +1825,53 @@ def rule_undecided_downstream(A, R, rule):
         combos = [()]
         for ft in flag_ty:
             combos = [c + (x,) for c in combos for x in A.uni.fin[ft]]
-        for d in sorted(undecided):
+        # the 'nobody needs it' answer: what the function returns when the neighbour loop ends with untouched accumulators
+        negative = None
+        if rule_early is not None and first is not None:
+            nones = [s_ for s_ in b.succs(sw) if s_ not in loop and b.term(s_)["k"] != "unreachable"]
+            if len(nones) == 1:
+                st0 = first.copy()
+                ex0 = I.run(fr, st0, start=nones[0], stops=())
+                negative = flag_answers(ex0.locals.get((fr.fid, 0))) if ex0 is not None else None
+            R.ob(rule_early, "%s | the answer for 'no downstream left to examine' is a single value" % short(b.name),
+                 negative is not None and len(negative) == 1, detail="cannot determine the negative answer of the requirement summary (fail closed)")
+            if negative is not None and len(negative) != 1:
+                negative = None
+        for d in (sorted(A.reach()) if negative is not None else ()):
+            early = []
+            for combo in combos:
+                for s0 in somes:
+                    if s0 not in ins:
+                        continue
+                    st = ins[s0].copy()
+                    for l, v in init.items():
+                        st.locals[(fr.fid, l)] = v
+                    cell = st.heap.get(("job", sym))
+                    if cell is None or cell[0] != "adt":
+                        continue
+                    st.heap[("job", sym)] = av_set(cell, (("f", A.L.state_field),), fin(A.L.jobstate, [d]), A.uni)
+                    fields = []
+                    ci = 0
+                    for f in A.L.edge_fields:
+                        if f["ty"].get("adt") in A.uni.fin:
+                            fields.append(fin(f["ty"]["adt"], [combo[ci]]))
+                            ci += 1
+                        else:
+                            fields.append(TOP)
+                    from domain import adt as mkadt
+                    st.heap["__edge_default__"] = mkadt(A.L.edgeinfo, {0: tuple(fields)})
+                    for hk in [hk for hk in st.heap if isinstance(hk, tuple) and hk and hk[0] == "edge"]:
+                        del st.heap[hk]
+                    ex = I.run(fr, st, start=s0, stops={h})
+                    if ex is not None:
+                        ans = flag_answers(ex.locals.get((fr.fid, 0)))
+                        if ans is None or (ans & negative):
+                            early.append(tuple(A.uni.show(t_, x) for t_, x in zip(flag_ty, combo)))
+            n_early = locals().get("n_early", 0) + 1
+            R.ob(rule_early, "%s | a downstream in state %s | does not end the scan with the answer 'not needed'" % (short(b.name), A.sname(d)), not early,
+                 detail="with edge flags %s the summary answers 'not needed' without looking at the remaining downstreams, one of which may "
+                        "need the Ephemeral: it is then never run and its consumer never offered" % sorted(set(early))[:3])
+        for d in (sorted(undecided) if rule is not None else ()):
             silent = []
             for combo in combos:
                 for s0 in somes:
@@ -1792,4 +1906,7 @@ def rule_undecided_downstream(A, R, rule):
             R.ob(rule, "%s | downstream still undecided (%s) | is never passed over as 'not needed'" % (short(b.name), A.sname(d)), not silent,
                  detail="with edge flags %s an undecided downstream leaves the answer untouched, so the Ephemeral can be judged unnecessary "
                         "while a consumer may still turn out to need it" % sorted(set(silent))[:3])
-    R.floor(rule, "requirement-summary functions x undecided downstream states", n, 2)
+    if rule is not None:
+        R.floor(rule, "requirement-summary functions x undecided downstream states", n, 2)
+    if rule_early is not None:
+        R.floor(rule_early, "requirement-summary functions with a neighbour loop", sum(1 for o in R.obs if o.rule == rule_early and "single value" in o.key), 1)
